@@ -2128,3 +2128,66 @@ func r099(c *Ctx, r *R) {
 		r.Und("episode", f.Pos(), "the 'latest metric unexpired: not failed' exit of Checker.failed was not recognised")
 	}
 }
+
+func init() {
+	register(&Rule{ID: "R17.7", Props: []string{"C17", "C14"}, Floor: 2, Title: "raft data is located through GetDataFolder() everywhere: the raw data_folder setting (empty by default) is read only by GetDataFolder and by the configuration's own save/load/default code", Run: r177})
+}
+
+func r177(c *Ctx, r *R) {
+	pkg := c.P.Pkg("consensus/raft")
+	nt := c.namedType(r, "consensus/raft", "Config")
+	if pkg == nil || nt == nil {
+		return
+	}
+	var fld *types.Var
+	if st, ok := nt.Underlying().(*types.Struct); ok {
+		for i := 0; i < st.NumFields(); i++ {
+			if st.Field(i).Name() == "DataFolder" {
+				fld = st.Field(i)
+			}
+		}
+	}
+	if fld == nil {
+		r.Und("field", nt.Obj().Pos(), "raft.Config has no DataFolder field")
+		return
+	}
+	allowed := map[string]bool{"GetDataFolder": true, "toJSONConfig": true, "applyJSONConfig": true, "Default": true, "LoadJSON": true, "ApplyEnvVars": true, "Validate": true, "ToJSON": true, "ToDisplayJSON": true}
+	getter := 0
+	for _, p := range c.P.Repo {
+		if strings.HasPrefix(p.PkgPath, ModPath+"/test") {
+			continue
+		}
+		for _, file := range p.Syntax {
+			for _, d := range file.Decls {
+				fd, ok := d.(*ast.FuncDecl)
+				if !ok || fd.Body == nil {
+					continue
+				}
+				ast.Inspect(fd.Body, func(n ast.Node) bool {
+					se, ok := n.(*ast.SelectorExpr)
+					if !ok {
+						return true
+					}
+					sel := p.TypesInfo.Selections[se]
+					if sel == nil || sel.Obj() != types.Object(fld) {
+						return true
+					}
+					isCfgMethod := fd.Recv != nil && recvTypeName(fd.Recv.List[0].Type) == "Config" && p == pkg
+					if isCfgMethod && allowed[fd.Name.Name] {
+						if fd.Name.Name == "GetDataFolder" {
+							getter++
+						}
+						return true
+					}
+					r.Bad("raw-data-folder:"+fd.Name.Name, se.Pos(), "%s reads the raw data_folder setting instead of GetDataFolder(): with the default (empty) setting it operates on \"\" instead of <base dir>/raft - a removed peer's data is not cleaned, or the wrong folder is used", fd.Name.Name)
+					return true
+				})
+			}
+		}
+	}
+	r.Check(getter > 0, "getter", fld.Pos(), "GetDataFolder resolves the data_folder setting", "GetDataFolder no longer reads the data_folder setting")
+	// and the cleaning entry point goes through the getter
+	if cr := c.fn(r, "consensus/raft", "CleanupRaft"); cr != nil {
+		r.Check(len(findCalls(cr, false, "raft.Config).GetDataFolder")) > 0, "cleanup:uses-getter", cr.Pos(), "CleanupRaft locates the data through GetDataFolder()", "CleanupRaft does not locate the data folder through GetDataFolder()")
+	}
+}
